@@ -114,8 +114,8 @@ def _assign(ctx):
     if set(seen) == {0, 1}:
         r_true = seen[1][0].locals & seen[0][0].locals
         m_true = seen[1][1].locals & seen[0][1].locals
-        rn = b.local_by_name("ranges"); mn = b.local_by_name("meta")
-        ctx.check(rn in r_true and mn in m_true, "C01.D2", "assign_dst_slots:twins-identical", site(b),
+        named = lambda ls: {l for l in ls if b.local_name(l)}
+        ctx.check(bool(named(r_true)) and bool(named(m_true)), "C01.D2", "assign_dst_slots:twins-identical", site(b),
                   ok="both twins carry the same `ranges` and `meta`", bad="the twins do not share the same ranges/meta locals")
     ctx.check(bool(calls_to(b, "compact_slots")), "C01.D2", "assign_dst_slots:compact", site(b), ok="compact_slots follows", bad="compact_slots is not called")
 
